@@ -33,6 +33,17 @@ def make_cases(rng, tier, n):
             c["ops"] = [("commit", rng.choice("lc"), []), ("fetch", False, []), ("status", []), ("push", False, []), ("fetch", False, []),
                         ("pull", rng.choice("lc"), False, [])]
             c["hist_info"] = dict(edits_between=False)
+        elif i % 20 == 17:
+            # a tracked file (an output, or an entry of a directory output) is a link with an absolute target to a live regular file
+            # OUTSIDE the cache ("the data set lives on a shared disk"), on the cache's file system: whatever commit does with it,
+            # no link may end up among the objects and no object may share its bytes with that file
+            files_ = [e for e in c["init"] if e[0] == "file"]
+            ops_ = [("commit", "l", [])] if (i // 20) % 2 else []
+            for e in rng.sample(files_, min(len(files_), 2)):
+                ops_.append(("flink", e[1], 1))
+            ops_ += [("commit", "l", []), ("status", []), ("commit", "c", []), ("status", [])]
+            c["ops"] = ops_
+            c["hist_info"] = dict(edits_between=False)
         else:
             gen.gen_history(rng, c, rng.randrange(5, 12 if tier == "quick" else 40))
         if c["hist_info"]["edits_between"]:
